@@ -205,42 +205,69 @@ def main():
                 print(f"VIOLATION property={prop} replay={p} no-failing-input-found")
             violations += 1
 
-    # ---- 4b'. C02: re-entrant user code (a body calls Invoke on the container).  The model has no
-    #      re-entrant bodies: only the checker runs, on the implementation's trace.
+    # ---- 4b'. C02: re-entrant user code (a body calls Invoke on the container).  The model runs them
+    #      through ResolveRe / RunRe (`nest` oracle emitted next to the behaviour table):
+    #      M = run_re vs implementation on PExec, V = chk_C02 on the implementation's trace,
+    #      W = chk_C02 on the model's own trace.
     reent_cov = None
-    if prop == "C02" and core_ok:
-        recases = load_corpus("C02-reentrant") + gen.generate_reentrant(seed, 200 if tier == "quick" else 20000)
+    if prop in ("C01", "C02") and core_ok and not all(f in built for f in ("ResolveRe", "RunRe", "P_Re")):
+        broken.append(("model", "ResolveRe / RunRe / P_Re (re-entrant user code, conservativity) do not compile"))
+    elif prop in ("C01", "C02") and core_ok:
+        # (C01: what a consumer receives — the PExec projection carries every argument — must also be what the
+        #  model prescribes when bodies re-enter the container; different seed stream than C02)
+        recases = load_corpus("C02-reentrant") + gen.generate_reentrant(seed + (1 if prop == "C01" else 0), 800 if tier == "quick" else 20000)
         recases, retraces = common.run_impl_parallel(recases)
+        re_defs = ["Fixpoint mism_re_from (k : pkind) (i : nat) (cs : list case_re) : list (nat * nat) := "
+                   "match cs with [] => [] | c :: t => match first_diff_k k 0 (model_obs_re c) (cs_impl (cr_case c)) with "
+                   "Some j => (i, j) :: mism_re_from k (S i) t | None => mism_re_from k (S i) t end end.",
+                   "Definition M := Eval vm_compute in mism_re_from PExec 0 all_re.",
+                   "Definition V := Eval vm_compute in viol_all (fun c obs => chk_C02 (cs_hist c) obs) all_cases.",
+                   "Definition W := Eval vm_compute in viol_all (fun c obs => chk_C02 (cs_hist c) obs) (map model_case_re all_re).",
+                   "Print M.", "Print V.", "Print W."]
 
         def re_eval(cs, ts):
             def one(lo):
-                src = emit.cases_file(list(zip(cs[lo:lo + 250], ts[lo:lo + 250])), extra="Spec Check Cases",
-                                      defs=["Definition V := Eval vm_compute in viol_all (fun c obs => chk_C02 (cs_hist c) obs) all_cases.", "Print V."])
+                src = emit.cases_file_re(list(zip(cs[lo:lo + 250], ts[lo:lo + 250])), extra="Spec Check Cases", defs=re_defs)
                 o = common.coq_eval(src, timeout=3000)
-                return [(lo + a[0],) + tuple(a[1:]) for a in common.parse_pairs(common.parse_printed(o, "V"))]
+                return tuple([(lo + a[0],) + tuple(a[1:]) for a in common.parse_pairs(common.parse_printed(o, nm))] for nm in "MVW")
             from concurrent.futures import ThreadPoolExecutor
             with ThreadPoolExecutor(max_workers=16) as ex:
-                return [v for part in ex.map(one, range(0, len(cs), 250)) for v in part]
-        reV = re_eval(recases, retraces)
+                parts = list(ex.map(one, range(0, len(cs), 250)))
+            return tuple([x for part in parts for x in part[k]] for k in range(3))
+        reM, reV, reW = re_eval(recases, retraces)
+
+        def unwound(ci, oi, code):
+            """code 202 the model reproduces at the same operation, after an unrecovered panic: the panic of
+            nested work unwound through a body whose `exec` event (logged when the body starts) carries the
+            planned outcome ok; that execution did not return, its function legitimately runs again"""
+            return (code == 202 and (ci, oi, code) in set(reW) and not recases[ci]["config"].get("recover")
+                    and any(ot["verdict"].get("v") == "panicked" for ot in retraces[ci]["ops"][:oi]))
+        reV_real = [v for v in reV if not unwound(*v)]
         nested_runs = sum(1 for c, t in zip(recases, retraces) for f in c["fns"] if f.get("nested")
                           for ot in t["ops"] for ev in ot["events"] if ev["ev"] == "exec" and ev["f"] in [n["fn"] for n in f["nested"]])
         reent_cov = dict(histories=len(recases), nested_invokes_that_ran_their_function=nested_runs,
-                         checker_failures=len(reV),
-                         note="bodies that call Invoke re-entrantly are outside the model; chk_C02 is evaluated on the implementation's trace only")
+                         model_impl_disagreements=len(set(m[0] for m in reM)),
+                         checker_failures=len(reV_real), checker_failures_on_model_trace=len(reW),
+                         unwound_bodies_reexecuted=len(reV) - len(reV_real),
+                         note="bodies that call Invoke re-entrantly are modelled by ResolveRe/RunRe (oracle `nest`); model vs implementation "
+                              "on PExec, chk_C02 on the implementation's trace and on the model's own trace; `unwound_bodies_reexecuted`: "
+                              "code 202 reproduced by the model after an unrecovered panic of nested work unwound through a body "
+                              "(its exec event carries the planned outcome; the execution never returned)")
         seen_codes = set()
-        for (ci, oi, code) in reV:
+        for (ci, oi, code) in reV_real:
             if code in seen_codes:
                 continue
             seen_codes.add(code)
 
             def repred(cand, code=code):
                 cs, ts = common.run_impl([cand])
-                return any(x[2] == code for x in re_eval(cs, ts))
+                return any(x[2] == code for x in re_eval(cs, ts)[1])
             small = recases[ci]
             try:
                 small = shrink(spec, recases[ci], repred)
                 keep = {o.get("fn") for o in small["ops"]}
-                keep |= {n["fn"] for f in recases[ci]["fns"] if f["id"] in keep for n in f.get("nested", [])}
+                for _ in range(4):
+                    keep |= {n["fn"] for f in recases[ci]["fns"] if f["id"] in keep for n in f.get("nested", [])}
                 small = dict(small, fns=[f for f in recases[ci]["fns"] if f["id"] in keep])
             except Exception as e:
                 common.log("shrink failed:", e)
@@ -250,6 +277,16 @@ def main():
                               "note": "functions with a `nested` entry call <scope>.Invoke(<fn>) from inside their body during the given execution",
                               "case": cs[0], "implementation_trace": ts[0]})
             print(f"VIOLATION property={prop} replay={p}")
+            violations += 1
+        re_explained = set(v[0] for v in reV_real)
+        re_mism = [m for m in reM if m[0] not in re_explained]
+        if re_mism and not seen_codes:
+            ci, oi = re_mism[0][0], re_mism[0][1]
+            p = write_replay(prop, f"reentrant-corr-{case_hash(recases[ci])}",
+                             {"property": prop, "obligation": f"corr_{prop} (re-entrant bodies): RunRe.run_re and the implementation agree on the PExec projection",
+                              "disagreeing_case": recases[ci], "operation": oi, "implementation_trace": retraces[ci],
+                              "note": "no checker fails on the implementation's trace for this case"})
+            print(f"VIOLATION property={prop} replay={p} no-failing-input-found")
             violations += 1
 
     # ---- 4c. C14 / C18: the grammar stream against Parse.v (DryRun container)
